@@ -179,6 +179,8 @@ func newEnc(P *Program, db *SpecDB, r *Resolver) *Enc {
 		"(forall ((p Int)) (! (and (< (arrslice p) 0) (= (rtag (arrslice p)) 2) (= (rootof (arrslice p)) (rootof p))) :pattern ((arrslice p))))",
 		"(forall ((p Int)) (! (=> (> p 0) (= (rootof p) p)) :pattern ((rootof p))))",
 		"(= (rootof 0) 0)",
+		// element references are exactly the references tagged 1: their root is their array's root
+		"(forall ((p Int)) (! (=> (= (rtag p) 1) (= (rootof p) (rootof (elembase p)))) :pattern ((elembase p))))",
 		"(forall ((p Int)) (! (=> (>= p 0) (= (rtag p) 0)) :pattern ((rtag p))))",
 	)
 	empty := e.strLit("")
@@ -466,7 +468,8 @@ func (e *Enc) sliceFact(sv SliceV, alloc Term) Term {
 	f := tAnd(tLe(tInt(0), sv.Off), tLe(tInt(0), sv.Len), tLe(sv.Len, sv.Cap), tLe(sv.Cap, Term{maxLen, SInt}), tLe(sv.Off, Term{maxLen, SInt}),
 		tImp(tEq(sv.Base, tInt(0)), tAnd(tEq(sv.Cap, tInt(0)), tEq(sv.Off, tInt(0)))))
 	if alloc.S != "" {
-		f = tAnd(f, tLt(sv.Base, alloc))
+		// the backing array exists already (a base is an array object or a view into one)
+		f = tAnd(f, tLt(sv.Base, alloc), tLt(app(SInt, "rootof", sv.Base), alloc))
 	}
 	return f
 }
@@ -810,7 +813,7 @@ func (e *Enc) compTypingFact(c *Comp, v Term, alloc Term) {
 	if c.Scalar || c.ValType == nil {
 		// slice header shapes are asserted as ground facts at every load (shapeFacts)
 		if strings.HasSuffix(c.Name, ".base") && !strings.HasPrefix(c.Name, "MV ") {
-			e.fact(Term{fmt.Sprintf("(forall ((p Int)) (! (< (select %s p) %s) :pattern ((select %s p))))", v.S, alloc.S, v.S), SBool})
+			e.fact(Term{fmt.Sprintf("(forall ((p Int)) (! (and (< (select %s p) %s) (< (rootof (select %s p)) %s)) :pattern ((select %s p))))", v.S, alloc.S, v.S, alloc.S, v.S), SBool})
 		}
 		return
 	}
